@@ -160,14 +160,18 @@ std::string AnalyzerInformation::skipAnalysis(const tinyxml2::XMLDocument &analy
 std::string AnalyzerInformation::getAnalyzerInfoFileFromFilesTxt(std::istream& filesTxt, const std::string &sourcefile, const std::string &cfg, int fsFileId)
 {
     std::string line;
+    std::string suffixMatch;
     while (std::getline(filesTxt,line)) {
         AnalyzerInformation::Info filesTxtInfo;
         if (!filesTxtInfo.parse(line))
             continue; // TODO: report error?
-        if (endsWith(sourcefile, filesTxtInfo.sourceFile) && filesTxtInfo.cfg == cfg && filesTxtInfo.fsFileId == fsFileId)
+        // the line written for exactly this file wins over a line whose source is only a suffix of it
+        if (sourcefile == filesTxtInfo.sourceFile && filesTxtInfo.cfg == cfg && filesTxtInfo.fsFileId == fsFileId)
             return filesTxtInfo.afile;
+        if (suffixMatch.empty() && endsWith(sourcefile, filesTxtInfo.sourceFile) && filesTxtInfo.cfg == cfg && filesTxtInfo.fsFileId == fsFileId)
+            suffixMatch = filesTxtInfo.afile;
     }
-    return "";
+    return suffixMatch;
 }
 
 std::string AnalyzerInformation::getAnalyzerInfoFile(const std::string &buildDir, const std::string &sourcefile, const std::string &cfg, std::size_t fsFileId)
